@@ -278,10 +278,13 @@ class Gen(object):
         elif op == "locate":
             attrs = []
             for _ in range(self.ch([0, 0, 1, 1, 2, 3])):
-                nm = self.ch(["Name", "State", "Object Type", "Cryptographic Algorithm", "Cryptographic Length",
-                              "Cryptographic Usage Mask", "Operation Policy Name", "Object Group",
-                              "Application Specific Information", "Certificate Type", "Unique Identifier",
-                              "Sensitive", "Initial Date", "Initial Date", "Contact Information", "Activation Date"])
+                names = ["Name", "State", "Object Type", "Cryptographic Algorithm", "Cryptographic Length",
+                         "Cryptographic Usage Mask", "Operation Policy Name", "Object Group",
+                         "Application Specific Information", "Certificate Type", "Unique Identifier",
+                         "Sensitive", "Initial Date", "Initial Date"]
+                if not self.profile.get("locate_listed_only"):
+                    names += ["Contact Information", "Activation Date"]
+                nm = self.ch(names)
                 attrs.append(self.tattr(nm))
             it.update(max=self.ch([None, None, 0, 1, 2, 5]), offset=self.ch([None, None, 0, 1, 2, 7]), attrs=attrs)
         elif op == "get":
